@@ -5,9 +5,11 @@ package c17
 import (
 	"archive/zip"
 	"bytes"
+	"compress/flate"
 	"compress/gzip"
 	"encoding/json"
 	"fmt"
+	"hash/crc32"
 	"net/http"
 	"net/http/httptest"
 	"os"
@@ -67,6 +69,9 @@ type caseDef struct {
 	// BadArchive: the zip holds an entry below a directory it never creates, so
 	// that extraction fails half way (a failed operation).
 	BadArchive bool `json:"bad_archive,omitempty"`
+	// Damage: the data of the archive's last file entry ends early ("truncated_stream", "overstated_size"): the
+	// extraction fails, nothing may be published.
+	Damage string `json:"damage,omitempty"`
 	// FlakyServer: the first download attempt gets a truncated body (a failed
 	// operation), the retry succeeds.
 	FlakyServer bool `json:"flaky_server,omitempty"`
@@ -296,6 +301,68 @@ func zipArchive(files map[string][]byte, order []string) []byte {
 			panic(err)
 		}
 		if _, err := w.Write(content); err != nil {
+			panic(err)
+		}
+	}
+	if err := zw.Close(); err != nil {
+		panic(err)
+	}
+	return buf.Bytes()
+}
+
+// zipArchiveDamaged is zipArchive with the data of the last file entry damaged: "truncated_stream" cuts the deflate
+// stream before its final block, "overstated_size" announces more uncompressed bytes than the stream holds. Both
+// archives open fine; reading the entry ends early.
+func zipArchiveDamaged(files map[string][]byte, order []string, damage string) []byte {
+	var buf bytes.Buffer
+	zw := zip.NewWriter(&buf)
+	last := ""
+	for _, name := range order {
+		if files[name] != nil {
+			last = name
+		}
+	}
+	for _, name := range order {
+		content := files[name]
+		h := &zip.FileHeader{Name: name, Method: zip.Deflate}
+		if content == nil {
+			h.Name = name + "/"
+			h.SetMode(os.ModeDir | 0o755)
+			if _, err := zw.CreateHeader(h); err != nil {
+				panic(err)
+			}
+			continue
+		}
+		h.SetMode(0o644)
+		if name != last {
+			w, err := zw.CreateHeader(h)
+			if err != nil {
+				panic(err)
+			}
+			if _, err := w.Write(content); err != nil {
+				panic(err)
+			}
+			continue
+		}
+		var comp bytes.Buffer
+		fw, _ := flate.NewWriter(&comp, flate.DefaultCompression)
+		_, _ = fw.Write(content)
+		_ = fw.Close()
+		raw := comp.Bytes()
+		h.CRC32 = crc32.ChecksumIEEE(content)
+		h.UncompressedSize64 = uint64(len(content))
+		switch damage {
+		case "truncated_stream":
+			raw = raw[:len(raw)*2/3]
+		case "overstated_size":
+			h.UncompressedSize64 += 1000
+		}
+		h.CompressedSize64 = uint64(len(raw))
+		w, err := zw.CreateRaw(h)
+		if err != nil {
+			panic(err)
+		}
+		if _, err := w.Write(raw); err != nil {
 			panic(err)
 		}
 	}
@@ -583,7 +650,13 @@ func build(c caseDef) (*built, error) {
 			tg.Untouched = true
 			spec.ExpectError = true
 		}
-		if err := writeFileMode(archive, zipArchive(tree, order), 0o644); err != nil {
+		archiveBytes := zipArchive(tree, order)
+		if c.Damage != "" {
+			archiveBytes = zipArchiveDamaged(tree, order, c.Damage)
+			tg.Untouched = true
+			spec.ExpectError = true
+		}
+		if err := writeFileMode(archive, archiveBytes, 0o644); err != nil {
 			return nil, err
 		}
 		switch c.State {
